@@ -244,7 +244,9 @@ def oracle(c, obs):
                 # an ExchangeGrant is bounded by what was authorised for the grant the subject token came from
                 sg = toks[o[2]][2] if o[2] in toks else None
                 if nt[2] not in authorised and sg in authorised:
-                    authorised[nt[2]] = authorised[sg]
+                    # ... and, being derived from ONE token, by that subject token's scope ("for exchange: beyond the subject token's
+                    # scope"): whatever is later minted inside the exchange grant (refresh, chained refresh) stays within it
+                    authorised[nt[2]] = authorised[sg] & set(xv["subject"]) if xv["subject"] is not None else authorised[sg]
         if "views" in st:
             at = toks.get(r[1])
             if at is not None:
